@@ -31,6 +31,8 @@ type edgeReq struct {
 	// becomes nil and matches nothing).
 	Subj   []ssa.Value
 	MatchS func(subj []ssa.Value, cond ssa.Value, pol bool) bool
+	// SubjSame, when set, decides whether a call argument carries a subject (default: identity)
+	SubjSame func(arg, subj ssa.Value) bool
 }
 
 func (rq edgeReq) match(cond ssa.Value, pol bool) bool {
@@ -97,7 +99,7 @@ func helperEdgeMeets(rq edgeReq, cond ssa.Value, pol bool, depth int) bool {
 		inner.Subj = make([]ssa.Value, len(rq.Subj))
 		for i, sv := range rq.Subj {
 			for k, a := range c.Call.Args {
-				if k < len(h.Params) && sv != nil && (a == sv || stripIntConv(a) == sv) {
+				if k < len(h.Params) && sv != nil && (a == sv || stripIntConv(a) == sv || (rq.SubjSame != nil && rq.SubjSame(a, sv))) {
 					inner.Subj[i] = h.Params[k]
 				}
 			}
@@ -443,10 +445,20 @@ func bytesOfString(v ssa.Value) (string, bool) {
 
 // nilReturnsGuarded: for a Return whose error result may be nil, every way the nil reaches it passes an edge
 // satisfying guard (dominating the return block, or dominating/being the phi edge that carries the nil).
+// nilReturnsExpand, when set, derives further facts from the guards before they are matched (bit provenance for the
+// negotiation rules).
+var nilReturnsExpand func([]Guard) []Guard
+
 func nilReturnsGuarded(ne *NilEnv, ret *ssa.Return, errIdx int, guard func(g Guard) bool) bool {
 	errv := ret.Results[errIdx]
+	more := func(gs []Guard) []Guard {
+		if nilReturnsExpand != nil {
+			return nilReturnsExpand(gs)
+		}
+		return gs
+	}
 	domOK := func(b *ssa.BasicBlock) bool {
-		for _, g := range guardsOf(b) {
+		for _, g := range more(guardsOf(b)) {
 			if guard(g.norm()) {
 				return true
 			}
@@ -476,7 +488,7 @@ func nilReturnsGuarded(ne *NilEnv, ret *ssa.Return, errIdx int, guard func(g Gua
 			// the edge pb -> phi block itself may be the guard edge
 			edgeOK := domOK(pb)
 			if !edgeOK {
-				for _, g := range guardsOnEdge(pb, ph.Block()) {
+				for _, g := range more(guardsOnEdge(pb, ph.Block())) {
 					if guard(g.norm()) {
 						edgeOK = true
 					}
